@@ -198,6 +198,8 @@ def run(cx):
             len([a for a, p_ in cx.guards(b, ic[0].bb) if find('(itervar _)', a) is not None]) == 1
         pushes = cx.push_events(b)
         ok_push = len(pushes) == 1 and find('(call *::intersection (param other) _)', pushes[0][1]) is not None
-        cx.ob('ORDER', 'Curve2::intersection(Circle2):every-edge', okx and ok_every and ok_seg and ok_int and ok_push,
+        # (a loop that always breaks on its first cycle is no loop at all in the CFG: both loops must be there, or an iterator chain in their place)
+        n_iter = len(b.loops()) + len(b.calls('Iterator::map|Iterator::flat_map|Iterator::filter_map|Vec::extend'))
+        cx.ob('ORDER', 'Curve2::intersection(Circle2):every-edge', okx and n_iter >= 2 and ok_every and ok_seg and ok_int and ok_push,
               'every edge (v[i], v[i+1]), i in 0..count-1, is intersected with the circle whenever it is a valid segment - no edge is skipped on any other condition - and every point found is kept',
               where=b.file, found=f'exhaustive={okx} every-cycle={ok_every} segment={ok_seg} intersect={ok_int} kept={ok_push} ' + '; '.join(why))
